@@ -4,7 +4,8 @@ Picks K single-token mutations (comparison flips, +-1, axis 0<->1, + <-> -, min 
 the property's Python anchor files (function bodies only; docstrings, comments, prints, raises and asserts are
 skipped), applies each to a scratch worktree (vp.mutate) and runs the property's quick check against it.  Prints one
 line per mutant (CAUGHT / MISSED / ERROR); survivors are candidates for gaps in the check - or equivalent mutants -
-and are looked at by hand.  Results are appended to ${MUT_OUT:-/tmp/mutants}/<ID>.txt.
+and are looked at by hand.  Results are appended to ${MUT_OUT:-/tmp/mutants}/<ID>.txt.  MUT_FUNCS=<regex> restricts the
+mutated lines to functions whose name matches (the anchor files are large and mostly about other properties).
 """
 import ast
 import json
@@ -36,6 +37,7 @@ RULES = [
     (r"\bnp\.minimum\(", "np.maximum("), (r"\bnp\.maximum\(", "np.minimum("),
     (r" \* ", " / "), (r"\[1:\]", "[:-1]"), (r"\[:-1\]", "[1:]"),
 ]
+FUNCS = os.environ.get("MUT_FUNCS", "")     # regex: only functions whose name matches are mutated
 SKIP = re.compile(r"^\s*(#|print\(|raise |assert |warnings\.|return NotImplemented|import |from )")
 
 
@@ -45,6 +47,8 @@ def body_lines(path):
     keep = set()
     for node in ast.walk(tree):
         if isinstance(node, (ast.FunctionDef, ast.AsyncFunctionDef)):
+            if FUNCS and not re.search(FUNCS, node.name):
+                continue
             body = node.body
             if body and isinstance(body[0], ast.Expr) and isinstance(getattr(body[0], "value", None), ast.Constant) \
                     and isinstance(body[0].value.value, str):
